@@ -304,10 +304,10 @@ class PyModel:
         return out, self.cstack(s), self.log
 
     def ctx_obj(self, c, s):
-        if c in ("memoize", "tape", "subst", "subst0"):
+        if c in ("memoize", "tape", "tapeR", "subst", "subst0"):
             if not s:
                 raise IndexError
-            return ({"memoize": "memo", "tape": "tape", "subst": "subst", "subst0": "subst0"}[c], s[-1])
+            return ({"memoize": "memo", "tape": "tape", "tapeR": "tape", "subst": "subst", "subst0": "subst0"}[c], s[-1])
         return self.named(c)
 
     def ex(self, p, s):
@@ -364,7 +364,8 @@ def sx_prog(p):
     if t == "seq":
         return "(seq " + " ".join(sx_prog(q) for q in p[1]) + ")" if p[1] else "skip"
     if t in ("with", "deco"):
-        return "(%s %s %s)" % (t, p[1], sx_prog(p[2]))
+        # "tapeR" (one tape object re-entered sequentially, never nested in itself) is a tape to the model
+        return "(%s %s %s)" % (t, "tape" if p[1] == "tapeR" else p[1], sx_prog(p[2]))
     if t == "catch":
         return "(catch %s)" % sx_prog(p[1])
     raise ValueError(p)
@@ -482,10 +483,17 @@ def prog_raise_after(chain, kinds, i, j):
     return ("seq", outer + [("obs",)])
 
 
+def prog_tape_reuse(c1, c2, kinds):
+    """family D: one AdjointTape object entered, left, and entered again under a different context
+    (its `_old_interpretation` must be the one active at the *latest* entry)."""
+    blk = lambda c, k: (k, c, ("seq", [("obs",), (kinds[2], "tapeR", ("seq", [("obs",)] + FULL)), ("obs",)]))
+    return ("seq", [blk(c1, kinds[0]), ("obs",), ("catch", blk(c2, kinds[1])), ("obs",)] + LIGHT)
+
+
 def random_prog(rng, depth, budget):
     """family C: arbitrary well-nested programs (sequences, nested try/except, decorators,
     substitution, armed probes), deeper than the exhaustive bound."""
-    def go(d):
+    def go(d, shared_open=False):
         n = rng.choice([1, 1, 2, 2, 3])
         items = []
         for _ in range(n):
@@ -494,9 +502,9 @@ def random_prog(rng, depth, budget):
             budget[0] -= 1
             r = rng.random()
             if d < depth and r < 0.50:
-                c = rng.choice(ALPHABET + ["P", "P", "W", "subst0", "tape", "memoize"])
+                c = rng.choice(ALPHABET + ["P", "P", "W", "subst0", "tape", "memoize"] + ([] if shared_open else ["tapeR"] * 3))
                 kind = "deco" if rng.random() < 0.3 else "with"
-                blk = (kind, c, ("seq", go(d + 1)))
+                blk = (kind, c, ("seq", go(d + 1, shared_open or c == "tapeR")))
                 items.append(("catch", blk) if rng.random() < 0.35 else blk)
             elif r < 0.62:
                 items.append(("obs",))
@@ -507,7 +515,7 @@ def random_prog(rng, depth, budget):
             elif r < 0.94:
                 items.append(("raise",))
             else:
-                items.append(("catch", ("seq", go(d))))
+                items.append(("catch", ("seq", go(d, shared_open))))
         items.append(("obs",))
         return items
     return ("seq", [("obs",)] + go(0))
@@ -585,6 +593,9 @@ class Checker:
     def add(self, prog, label):
         r = RealRun(self.inv)
         out, fin = r.run(prog)
+        if r.refused:
+            self.ctx.count("refused-entries", r.refused)
+            self.ctx.count("programs-with-refused-entry")
         self.pending.append((prog, label, out, fin, r.obs, r.viol))
         if len(self.pending) >= 20000:
             self.flush()
@@ -705,6 +716,8 @@ def candidates(p):
                 yield ("seq", items[:i] + [c] + items[i + 1:])
     elif t in ("with", "deco"):
         yield p[2]
+        if p[2] != ("skip",):
+            yield (t, p[1], ("skip",))
         if t == "deco":
             yield ("with", p[1], p[2])
         for c in candidates(p[2]):
@@ -751,6 +764,12 @@ def enumerate_all(ctx, chk, D):
                 chk.add(prog_raise_after(chain, kinds_for(rng, k), i, rng.randrange(i + 1)), "B2:raise-after-exit")
 
 
+def enumerate_reuse(ctx, chk):
+    for c1 in ALPHABET:
+        for c2 in ALPHABET:
+            chk.add(prog_tape_reuse(c1, c2, kinds_for(ctx.rng, 3)), "D:tape-reuse")
+
+
 def correspond(ctx, use_driver=True, volume=1):
     tb = tables()
     ctx.rule = ("EXHAUSTIVE: every chain of nested blocks of depth 0..D (D=4 quick, 5 thorough) over the 10 contexts "
@@ -759,7 +778,7 @@ def correspond(ctx, use_driver=True, volume=1):
                 "refusal is reachable within the depth bound)}: (A) entered and left normally with an observation at every "
                 "position and probes at the innermost one and after the exit; (B) ProbeError raised at the innermost position "
                 "with the try/except at every level j; (B2) raised after inner blocks i.. closed, for every i; one extra per "
-                "chain raising inside a rule / inside substitute().  with-vs-decorator per block is drawn from the PRNG.  "
+                "chain raising inside a rule / inside substitute(); (D) one AdjointTape object re-entered under every pair of contexts.  with-vs-decorator per block is drawn from the PRNG.  "
                 "RANDOM (C): general programs with sequences, nested try/except, substitution, armed probes, depth <= 7, and "
                 "7..9 nested partial interpretations.  Non-trivial = nesting depth >= 2; distinct by program text.")
     if not base_check(ctx, tb):
@@ -767,6 +786,7 @@ def correspond(ctx, use_driver=True, volume=1):
     chk = Checker(ctx, tb, use_driver=use_driver)
     D = 4 if ctx.tier == "quick" else 5
     enumerate_all(ctx, chk, D)
+    enumerate_reuse(ctx, chk)
     ctx.exhaustive = True
     n_rand = (3000 if ctx.tier == "quick" else 40000) * volume
     for _ in range(n_rand):
@@ -791,6 +811,7 @@ def search(ctx, broken):
     have = lambda: sum(1 for f in ctx.failures if f.witness is not None)
     before = have()
     enumerate_all(ctx, chk, 3)
+    enumerate_reuse(ctx, chk)
     chk.flush()
     if have() > before:
         return
